@@ -21,6 +21,14 @@ def R(mod, name, cfg="rc"):
 
 
 PROPS = {
+    "C01": dict(
+        rules=[R("arith", "rule_num_wrap"), R("arith", "rule_div_float")],
+        clause="Integer `+ - * % ^` and negation wrap and `/` always builds a float, by construction of KNumber's "
+               "operator impls (R-NUM-WRAP, R-DIV-FLOAT). Not decided: result values, evaluation order, "
+               "short-circuiting, stale result registers, independence from surrounding code (properties of emitted "
+               "code paths).",
+        technique="Assert-terminator census and aggregate-variant census over the operator impls' MIR",
+    ),
     "C10": dict(
         rules=[R("front", "rule_indent"), R("front", "rule_indent_chain")],
         clause="Second sentence only: for each construct the property lists, the parser path on which the block / "
@@ -55,10 +63,16 @@ PROPS = {
         technique="MIR path rules (sibling protocol at nested entries, must-pass-through) + linear-value evidence rule",
     ),
     "C06": dict(
-        rules=[R("borrow", "rule_borrow")],
+        rules=[R("borrow", "rule_borrow"), R("arith", "rule_arith"), R("arith", "rule_rem_zero"), R("arith", "rule_accum"),
+               R("arith", "rule_num_wrap")],
         clause="Panic families visible in code shape: a RefCell guard of a shared container held across re-entrant or "
-               "aliasing code (R-BORROW). Not decided: panic-freedom in general.",
-        technique="guard live-range dataflow over MIR x whole-workspace call graph (CHA + callback-through-bounds edges)",
+               "aliasing code (R-BORROW); script-supplied i64 values reaching overflow-/zero-/shift-checked arithmetic "
+               "with no dominating guard of the needed kind (R-ARITH, R-REM-ZERO); digit accumulators in input-driven "
+               "loops without a bound inside the loop (R-ACCUM); the number tower itself never uses checked integer "
+               "arithmetic (R-NUM-WRAP). Not decided: panic-freedom in general (unwrap/index sites justified by data "
+               "invariants are out of scope and counted as undecided where met).",
+        technique="guard live-range dataflow over MIR x whole-workspace call graph (CHA + callback-through-bounds "
+                  "edges); Assert-terminator census with dominating-guard classification",
     ),
     "C03": dict(
         rules=[R("placeholder", "rule_placeholder")],
@@ -119,7 +133,6 @@ DESIGN_REF = {}
 
 # Properties not (yet) claimed, with the reason.  Entries for properties that appear in PROPS are ignored.
 NOT_APPLICABLE = {
-    "C01": "rules for its structural clauses (encoder/decoder layout agreement, number tower) are not built yet",
     "C02": "argument binding and capture semantics are functions of run-time register contents and of the emitted "
            "bytecode; no clause is visible in the shape of the Rust code (DESIGN.md section 5)",
     "C09": "every clause constrains numeric cursor values computed from the input's characters; no structural "
